@@ -533,6 +533,19 @@ func main() {
 				)
 			}
 			if d > 1 {
+				// two kernels with different register / LDS demands per wavefront resident together on one roomy CU:
+				// the small kernel's work-groups complete out of order and leave holes smaller than the big kernel's
+				// request in front of units that are still reserved
+				mid := cuSpec{simds: 2, slots: 4, sgprs: 128, vgprsPerLane: 32, lds: 2048}
+				kS1 := kern{wgs: 4, wfPerWG: 1, sgpr: 16, vgpr: 4, lds: 256}
+				kS2 := kern{wgs: 2, wfPerWG: 1, sgpr: 32, vgpr: 8, lds: 512}
+				kS3 := kern{wgs: 2, wfPerWG: 1, sgpr: 48, vgpr: 12, lds: 768}
+				list = append(list,
+					sc{pre + "1cu-mid/kS1+kS2", cfg{0, false, alg, d, []cuSpec{mid}, []kern{kS1, kS2}}},
+					sc{pre + "1cu-mid/kS1+kS2-late3", cfg{0, false, alg, d, []cuSpec{mid}, []kern{kS1, late(kS2, 3)}}},
+					sc{pre + "1cu-mid/kS1+kS3-late5", cfg{0, false, alg, d, []cuSpec{mid}, []kern{kS1, late(kS3, 5)}}},
+					sc{pre + "1cu-mid/kS2+kS1-late2+kS3-late6", cfg{0, false, alg, d, []cuSpec{mid}, []kern{kS2, late(kS1, 2), late(kS3, 6)}}},
+				)
 				list = append(list,
 					sc{pre + "batch/1cu/kOne+kOne", cfg{0, true, alg, d, []cuSpec{small}, []kern{kOne, kOne}}},
 					sc{pre + "1cu/kOne+kOne+kZero", cfg{0, false, alg, d, []cuSpec{small}, []kern{kOne, kOne, late(kZero, 3)}}},
